@@ -27,12 +27,16 @@ def link_base(eng, settled, set_where=None, name="LA"):
     return {"promise": p, "set_where": set_where}, p, sig
 
 
-def contract_get_as_int_cycle(eng, state, what, token, arg_token, bitness, unsigned, default=None):
-    """get_as_int whose argument may (symbolically) depend on the value being defined: wait() then raises DeferredCycle"""
+def contract_get_as_int_cycle(eng, state, what, token, arg_token, bitness, unsigned, default=None, cycle_is_reported=True):
+    """get_as_int whose argument may (symbolically) depend on the value being defined: wait() then raises DeferredCycle, which get_as_int
+    reports as recursive-definition (and refuses the statement) unless the caller asked to handle the cycle itself"""
     cyc = eng.fresh_bool("cyclic")
     eng.inputs.setdefault("cyclic", cyc)
     eng.I["cyclic"] = cyc
     if eng.branch(cyc):
+        if cycle_is_reported:
+            eng.path.events.append(("error", "recursive-definition"))
+            raise PyRaise(Exc("RecoverableError"))
         raise PyRaise(Exc("DeferredCycle"))
     return contract_get_as_int(eng, state, what, token, arg_token, bitness, unsigned, default)
 
